@@ -196,7 +196,7 @@ def replay(case):
 
 
 def shards(tier):
-    per = 300 if tier == "quick" else 5000
+    per = 300 if tier == "quick" else 30000
     return [{"kind": "order"}] + [{"kind": "stacks", "n": per, "idx": i} for i in range(15)]
 
 
